@@ -278,20 +278,27 @@ func TestGuaranteedInvalidEdits(t *testing.T) {
 		inStr := stringTokens(c.Root)
 		toks := astx.Tokens(c.Root)
 		// PHP-mode tokens outside string-like constructs
-		var sites []int
+		var sites, insertSites []int // insertSites: where an insertion cannot change how a neighbouring token is lexed
 		html := true
 		for i, tk := range toks {
 			if tk.Position == nil {
 				continue
 			}
 			isHTML := tk.ID == token.T_INLINE_HTML
+			// the gap right after a heredoc's closing label is not a free PHP-mode gap: before 7.3 the
+			// label must be followed directly by ";" or a newline, so an edit there un-terminates the
+			// heredoc and everything up to a later line with the same label becomes body text
+			afterHeredocEnd := i > 0 && toks[i-1].ID == token.T_END_HEREDOC
 			if !isHTML && !inStr[tk] && !(html && tk.ID == token.T_ECHO && string(tk.Value) == "<?=") {
 				sites = append(sites, i)
+				if !afterHeredocEnd {
+					insertSites = append(insertSites, i)
+				}
 			}
 			html = isHTML || (tk.ID == token.ID(';') && bytes.Contains(tk.Value, []byte("?>")))
 			_ = html
 		}
-		if len(sites) == 0 {
+		if len(sites) == 0 || len(insertSites) == 0 {
 			return
 		}
 		kind := rapid.SampledFrom([]string{"E1-insert-bracket", "E2-delete-bracket", "E3-truncate-open", "E4-control-byte", "E4-control-byte-at-end"}).Draw(rt, "edit")
@@ -299,7 +306,7 @@ func TestGuaranteedInvalidEdits(t *testing.T) {
 		desc := ""
 		switch kind {
 		case "E1-insert-bracket":
-			i := sites[rapid.IntRange(0, len(sites)-1).Draw(rt, "site")]
+			i := insertSites[rapid.IntRange(0, len(insertSites)-1).Draw(rt, "site")]
 			b := rapid.SampledFrom([]string{"(", ")", "[", "]", "{", "}"}).Draw(rt, "bracket")
 			at := toks[i].Position.StartPos
 			edited = append(append(append([]byte{}, src[:at]...), []byte(" "+b+" ")...), src[at:]...)
@@ -353,7 +360,7 @@ func TestGuaranteedInvalidEdits(t *testing.T) {
 			edited = append(append(append([]byte{}, bytes.TrimRight(src, " \t\r\n")...), sep...), cb)
 			desc = fmt.Sprintf("appended control byte 0x%02x as the last byte", cb)
 		case "E4-control-byte":
-			i := sites[rapid.IntRange(0, len(sites)-1).Draw(rt, "site")]
+			i := insertSites[rapid.IntRange(0, len(insertSites)-1).Draw(rt, "site")]
 			cb := rapid.SampledFrom([]byte{1, 2, 3, 4, 5, 6, 7, 8, 0x0e, 0x0f, 0x10, 0x1b, 0x1f, 0x7f}).Draw(rt, "byte")
 			at := toks[i].Position.StartPos
 			edited = append(append(append([]byte{}, src[:at]...), ' ', cb, ' '), src[at:]...)
